@@ -8,13 +8,14 @@ patch="$(realpath "$1")"; prop="$2"; tier="${3:-quick}"; tests="${4:-}"
 export GOFLAGS=-mod=mod GOPROXY=off GOSUMDB=off GOTOOLCHAIN=local
 wt="$(mktemp -d /tmp/mut.XXXXXX)"; rmdir "$wt"
 git -C /repo worktree add -q --detach "$wt" HEAD || exit 3
-cleanup() { git -C /repo worktree remove --force "$wt" >/dev/null 2>&1; rm -rf "$wt"; }
+cleanup() { git -C /repo worktree remove --force "$wt" >/dev/null 2>&1; rm -rf "$wt" "$wt.out"; }
 trap cleanup EXIT
 if ! git -C "$wt" apply "$patch"; then echo "PATCH-DOES-NOT-APPLY $patch"; exit 3; fi
 (cd "$wt" && go build ./... ) || { echo "MUTANT-DOES-NOT-BUILD"; exit 3; }
 if [ "$tests" = "--tests" ]; then
   if (cd "$wt" && go test -vet=off -count=1 ./... 2>&1 | grep -E "^(FAIL|---)" | head -5 | grep -q .); then echo "REPO-TESTS-FAIL (not test-surviving)"; else echo "repo tests green"; fi
 fi
+export VERIF_OUT="$wt.out"; mkdir -p "$VERIF_OUT"
 out="$(cd /verif && VERIF_REPO="$wt" ./check "$prop" "$tier" 2>&1)"; rc=$?
-echo "$out" | grep -E "^(VIOLATION|KNOWN|INCONCLUSIVE|C[0-9][0-9] )|what:" | head -8
+echo "$out" | grep -E "^(VIOLATION|KNOWN|INCONCLUSIVE|C[0-9][0-9] )|what:" | head -${MUT_LINES:-8}
 if [ $rc = 1 ]; then echo "CAUGHT $(basename "$patch") by $prop"; else echo "MISSED $(basename "$patch") by $prop (rc=$rc)"; fi
